@@ -84,6 +84,10 @@ def main() -> int:
             col.note("harness error: " + traceback.format_exc(limit=6)[-900:])
         finally:
             faulthandler.cancel_dump_traceback_later()
+        if not col.samples and not a.cases_file:
+            # every evidence file shows at least one actual case of this run
+            col.sample({"case": json.loads(json.dumps(case, default=str)[:4000]) if len(json.dumps(case, default=str)) < 4000
+                        else {"case_head": json.dumps(case, default=str)[:1500]}})
         if a.cases_file:
             per_case.append([k for k, v in col.violations.items() if v["count"] > before.get(k, 0)])
         state["next"] = idx + 1
